@@ -33,6 +33,8 @@ Obs(e) == IF e.out.kind \in ErrKinds THEN Fail
           ELSE IF \A i \in 1..Len(e.out.val) : e.out.val[i].ns = SubNs(e) /\ e.out.val[i].s \in 0..(DaySec - 1)
                THEN OkV({Pt(e.out.val[i]) : i \in 1..Len(e.out.val)})
                ELSE [kind |-> "bad-subsecond"]
+Ascending(e) == e.op # "Tzdb.local" \/ e.out.kind # "ok"
+                \/ \A i \in 1..(Len(e.out.val) - 1) : Lt(Pt(e.out.val[i]), Pt(e.out.val[i + 1]))
 \* expected outcome in the log's vocabulary (for the MISMATCH line)
 Show(e, x) == IF x.kind # "ok" THEN x
               ELSE IF e.op = "Tzdb.offset" THEN OkV([off |-> x.val])
@@ -95,7 +97,10 @@ QueryStep ==
          exp == IF known THEN AnswerIn(cache, disk, q) ELSE [kind |-> "no-table-event"]
          obs == Obs(E)
      IN IF known /\ exp = obs
-        THEN QueryWith(q, exp) /\ (IF Classes THEN PrintT("CLS " \o ClsOf(E)) ELSE TRUE)
+        THEN /\ QueryWith(q, exp) /\ (IF Classes THEN PrintT("CLS " \o ClsOf(E)) ELSE TRUE)
+             \* the right set of instants, but not in ascending order (GetNamedTimeZoneEpochNanoseconds; disambiguation
+             \* takes the first as the earlier and the last as the later): one class, whatever the position
+             /\ (IF Ascending(E) THEN TRUE ELSE Report(l, E.op, "instants-not-ascending", "the instants in ascending order", E.out))
         ELSE /\ Report(l, E.op, ClsOf(E), IF known THEN Show(E, exp) ELSE exp, E.out)
              \* resync: the provider has (or has not) read the file, whatever it answered
              /\ IF known THEN QueryWith(q, exp) ELSE UNCHANGED <<disk, cache, hist, last>>
